@@ -56,9 +56,12 @@ def run(ctx):
     import c05nts_part
     ncases_nts, nrec_nts, react_nts = c05nts_part.run_nts(ctx)
     ctx.log("NTS driver: %d cases, %d datagrams judged, reactions %s" % (ncases_nts, nrec_nts, react_nts))
+    # the state of the NTS association when the poll starts x the outcome of the key exchange it
+    # triggers x what then arrives (spec: NtpAcceptAssoc.tla)
+    ncases_as, nrec_as = c05nts_part.run_assoc(ctx)
     if not ctx.violations:
-        nval += ncases_nts
-    ctx.cov.update(traces_validated_against_impl=nval, evaluations=len(recs) + nrec_nts,
+        nval += ncases_nts + ncases_as
+    ctx.cov.update(traces_validated_against_impl=nval, evaluations=len(recs) + nrec_nts + nrec_as,
                    distinct_nontrivial=len({str(x["d"]) + str(x["il"]) for x in recs}),
                    rule="TLC enumeration of NtpAccept.tla: every datagram at most two fields away from the genuine "
                         "response (source, length, LI, VN, mode, stratum, origin class, transmit-vs-receive), arriving "
